@@ -3,7 +3,9 @@ package peers
 import (
 	"errors"
 	"io"
+	"strconv"
 
+	json "github.com/go-json-experiment/json"
 	"github.com/go-json-experiment/json/jsontext"
 )
 
@@ -73,6 +75,23 @@ func (e *Env) MatrixFrom(name string, dec *jsontext.Decoder) (string, error) {
 		}()
 	case BPanic:
 		panic(PeerPanic{e.nameID(name)})
+	case BNestedThenReset:
+		// hand the value to a nested UnmarshalDecode (the caller's options, and so
+		// its functions, apply), then try to Reset: this call is still in progress
+		var s NestedStr
+		err := json.UnmarshalDecode(dec, &s)
+		func() {
+			defer func() {
+				if r := recover(); r == nil {
+					e.finding(name + ": Decoder.Reset inside an unmarshal call did not panic after a nested UnmarshalDecode")
+				}
+			}()
+			dec.Reset(io.LimitReader(nil, 0))
+		}()
+		if err != nil {
+			return "", err
+		}
+		return name + ":" + strconv.Quote(string(s)), nil
 	}
 	v, err := dec.ReadValue()
 	if err != nil {
@@ -80,6 +99,9 @@ func (e *Env) MatrixFrom(name string, dec *jsontext.Decoder) (string, error) {
 	}
 	return name + ":" + string(v), nil
 }
+
+// NestedStr is what a BNestedThenReset peer unmarshals its value into.
+type NestedStr string
 
 func (e *Env) MatrixUnBytes(name string, in []byte) (string, error) {
 	b := e.beh(e.nameID(name))
